@@ -33,7 +33,7 @@
 //	race  <n starters> <token: A | P age> <upload start: Z | O s> <n procs> (...)*
 //	tokrace <n goroutines> <token: A | P age> <upload start: Z | O s> <number of uploading sidecars>
 //	      (telemetry.Start called concurrently by goroutines of the driver process itself)
-//	history <token: A | P age> <k> (<token aged by ns before this start> <upload start: Z | O s>
+//	history <token: A | P age> <k> (<token aged by ns before this start> <upload start: Z | O s> <mode file rewritten by Dir.SetMode before this start>
 //	      <uploading sidecar launched> <token (re)created>)*
 //	      (k starts one after the other on one directory; between starts the token's
 //	      modification time is moved back, which is what the passage of real time does)
@@ -54,6 +54,7 @@ import (
 	"time"
 
 	"golang.org/x/telemetry"
+	it "golang.org/x/telemetry/internal/telemetry"
 	. "golang.org/x/telemetry/internal/verifh/vhlib"
 )
 
@@ -555,6 +556,19 @@ func runHistory(idx int, rnd *Rand) []string {
 			a := Pick(rnd, []int64{0, 25 * 3600, 8 * 86400, 400 * 86400, -25 * 3600, 3600})
 			asof = &a
 		}
+		// between two starts the user (or a tool) may set the mode again, to the
+		// same or another non-off value: that is no reason for a new token
+		setMode := i > 0 && rnd.Chance(50)
+		if setMode {
+			if err := it.NewDir(tdir).SetMode(Pick(rnd, []string{"local", "local", "on"})); err != nil {
+				panic(err)
+			}
+			if fi, err := os.Stat(tf); err == nil {
+				before = fi.ModTime().UnixNano()
+			} else {
+				before = 0
+			}
+		}
 		os.Remove(filepath.Join(dir, "log"))
 		pr, pw, _ := os.Pipe()
 		cmd := exec.Command(self, "** vh_start history **")
@@ -584,7 +598,7 @@ func runHistory(idx int, rnd *Rand) []string {
 		}
 		f = append(f, I(int64(delta)))
 		f = append(f, asofFields(asof)...)
-		f = append(f, B(launched), B(created))
+		f = append(f, B(setMode), B(launched), B(created))
 	}
 	return f
 }
@@ -814,7 +828,7 @@ func main() {
 		out.Case(true, f...)
 	}
 	// histories of starts on one directory, real time passing in between
-	hist := 40
+	hist := 60
 	if os.Getenv("VERIF_TIER") == "thorough" {
 		hist = 600
 	}
